@@ -7,45 +7,80 @@ Open Scope N_scope.
 Section facts.
   Variable e : env.
   Variable M : table.
-  Notation eval_v := (eval_v e M).
-  Notation eval_a := (eval_a e M).
+  Variable F : ftable.
+  Notation eval_v := (eval_v e M F).
+  Notation eval_a := (eval_a e M F).
 
   (* one-step unfolding of the evaluator with the recursive calls by name (checked by reflexivity) *)
-  Lemma eval_v_S f p src st :
-    eval_v (S f) p src st =
+  Lemma eval_v_S f cx p src st :
+    eval_v (S f) cx p src st =
     match p with
     | PId => Done (src, st)
     | PShare => Done (src, st)
-    | PRef alias v => let* (r, st1) := eval_v f v src st in
+    | PRef alias v => let* (r, st1) := eval_v f cx v src st in
                       if alias then Done (VPtr ALIAS r, st1) else Done (VPtr st1 r, st1 + 1)
     | PCall m => match nth_error M (N.to_nat m) with
-                 | Some mt => match g_body mt with Some (BVal p') => eval_v f p' src st | _ => Stuck end
+                 | Some mt => match body_plan mt with
+                              | Some (p', wr) => match eval_v f [] p' src st with
+                                                 | Errored er => Errored (if wr then finalize (wrap_mode mt) er else er)
+                                                 | o => o
+                                                 end
+                              | None => Stuck
+                              end
                  | None => Stuck
                  end
-    | POfAssign t a => eval_a f a src (zero e ZFUEL t) st
+    | PCallX c args _ =>
+      if negb (args_ok cx args) then Stuck else
+      let ctx_sum := fold_left (fun acc a => match a with ArgCtx t => (acc + leaf0 (ctx_get cx t))%Z | _ => acc end) args 0%Z in
+      match c with
+      | CFn fi =>
+        match nth_error F (N.to_nat fi) with
+        | Some fd =>
+          let sl := match fd_src fd with Some _ => leaf0 src | None => 0%Z end in
+          if fd_err fd && fn_fails fi sl then Errored {| er_fn := fi; er_wraps := []; er_pending := [] |}
+          else let '(v, st1, _) := mark e 60 (fd_tgt fd) (mark_token fi sl ctx_sum) st in Done (v, st1)
+        | None => Stuck
+        end
+      | CMeth m =>
+        match nth_error M (N.to_nat m) with
+        | Some mt => match body_plan mt with
+                     | Some (p', wr) =>
+                       match eval_v f (map (fun t => (t, ctx_get cx t)) (g_ctx mt)) p' src st with
+                       | Errored er => Errored (if wr then finalize (wrap_mode mt) er else er)
+                       | o => o
+                       end
+                     | None => Stuck
+                     end
+        | None => Stuck
+        end
+      end
+    | POfAssign t a => eval_a f cx a src (zero e ZFUEL t) st
+    | PInit init to_ptr a =>
+      let* (v0, st1) := eval_v f cx init src st in
+      if to_ptr then eval_a f cx a src (VPtr st1 v0) (st1 + 1) else eval_a f cx a src v0 st1
     | PMakeList elem a =>
       match src with
-      | VArr vs => eval_a f a src (VSlice st (repeat (zero e ZFUEL elem) (length vs))) (st + 1)
+      | VArr vs => eval_a f cx a src (VSlice st (repeat (zero e ZFUEL elem) (length vs))) (st + 1)
       | _ => Stuck
       end
     end.
   Proof. destruct p; reflexivity. Qed.
 
-  Lemma eval_a_S f a src old st :
-    eval_a (S f) a src old st =
+  Lemma eval_a_S f cx a src old st :
+    eval_a (S f) cx a src old st =
     match a with
-    | ASet v => eval_v f v src st
+    | ASet v => eval_v f cx v src st
     | APtr v => match src with
                 | VNil => Done (old, st)
-                | VPtr _ s => let* (r, st1) := eval_v f v s st in Done (VPtr st1 r, st1 + 1)
+                | VPtr _ s => let* (r, st1) := eval_v f cx v s st in Done (VPtr st1 r, st1 + 1)
                 | _ => Stuck
                 end
-    | ASrcPtr v => match src with VNil => Done (old, st) | VPtr _ s => eval_v f v s st | _ => Stuck end
+    | ASrcPtr v => match src with VNil => Done (old, st) | VPtr _ s => eval_v f cx v s st | _ => Stuck end
     | AList false elem a' =>
       match src with
       | VNil => Done (old, st)
       | VSlice _ vs =>
-        let* (rs, st1) := each_assign (eval_a f) a' vs (repeat (zero e ZFUEL elem) (length vs)) (st + 1) in
+        let* (rs, st1) := each_assign (eval_a f cx) 0 a' vs (repeat (zero e ZFUEL elem) (length vs)) (st + 1) in
         Done (VSlice st rs, st1)
       | _ => Stuck
       end
@@ -53,114 +88,119 @@ Section facts.
       match src with
       | VArr vs =>
         match old with
-        | VSlice id olds => let* (rs, st1) := each_assign (eval_a f) a' vs olds st in Done (VSlice id rs, st1)
-        | VNil => let* (_, st1) := each_assign (eval_a f) a' vs [] st in Done (VNil, st1)
+        | VSlice id olds => let* (rs, st1) := each_assign (eval_a f cx) 0 a' vs olds st in Done (VSlice id rs, st1)
+        | VNil => let* (_, st1) := each_assign (eval_a f cx) 0 a' vs [] st in Done (VNil, st1)
         | _ => Stuck
         end
       | _ => Stuck
       end
     | AMap k v => match src with
                   | VNil => Done (old, st)
-                  | VMap _ kvs => let* (rs, st1) := each_entry (eval_v f) k v kvs (st + 1) in Done (VMap st rs, st1)
+                  | VMap _ kvs => let* (rs, st1) := each_entry (eval_v f cx) k v kvs (st + 1) in Done (VMap st rs, st1)
                   | _ => Stuck
                   end
     | AStruct fs => match old with
-                    | VStruct olds => let* (rs, st1) := each_field (eval_a f) fs src olds st in Done (VStruct rs, st1)
+                    | VStruct olds => let* (rs, st1) := each_field (eval_v f cx) (eval_a f cx) fs src olds st in Done (VStruct rs, st1)
                     | _ => Stuck
                     end
-    | AIfNotNil a' => match src with VNil => Done (old, st) | VPtr _ s => eval_a f a' s old st | _ => Stuck end
+    | AIfNotNil a' => match src with VNil => Done (old, st) | VPtr _ s => eval_a f cx a' s old st | _ => Stuck end
+    | ADerefTgt a' => match old with
+                      | VPtr ad v => let* (r, st1) := eval_a f cx a' src v st in Done (VPtr ad r, st1)
+                      | VNil => Panicked
+                      | _ => Stuck
+                      end
     end.
-  Proof. destruct a as [| | |[|]| | |]; reflexivity. Qed.
+  Proof. destruct a as [| | |[|]| | | |]; reflexivity. Qed.
 
   (* unfolding equations, checked by reflexivity against Eval.v *)
-  Lemma eval_v_ofassign f t a src st : eval_v (S f) (POfAssign t a) src st = eval_a f a src (zero e ZFUEL t) st.
+  Lemma eval_v_ofassign f cx t a src st : eval_v (S f) cx (POfAssign t a) src st = eval_a f cx a src (zero e ZFUEL t) st.
   Proof. reflexivity. Qed.
-  Lemma eval_a_ptr f q src old st :
-    eval_a (S f) (APtr q) src old st =
+  Lemma eval_a_ptr f cx q src old st :
+    eval_a (S f) cx (APtr q) src old st =
     match src with
     | VNil => Done (old, st)
-    | VPtr _ s => let* (r, st1) := eval_v f q s st in Done (VPtr st1 r, st1 + 1)
+    | VPtr _ s => let* (r, st1) := eval_v f cx q s st in Done (VPtr st1 r, st1 + 1)
     | _ => Stuck
     end.
   Proof. reflexivity. Qed.
-  Lemma eval_a_list f el a src old st :
-    eval_a (S f) (AList false el a) src old st =
+  Lemma eval_a_list f cx el a src old st :
+    eval_a (S f) cx (AList false el a) src old st =
     match src with
     | VNil => Done (old, st)
-    | VSlice _ vs => let* (rs, st1) := each_assign (eval_a f) a vs (repeat (zero e ZFUEL el) (length vs)) (st + 1) in
+    | VSlice _ vs => let* (rs, st1) := each_assign (eval_a f cx) 0 a vs (repeat (zero e ZFUEL el) (length vs)) (st + 1) in
                      Done (VSlice st rs, st1)
     | _ => Stuck
     end.
   Proof. reflexivity. Qed.
-  Lemma eval_a_map f k v src old st :
-    eval_a (S f) (AMap k v) src old st =
+  Lemma eval_a_map f cx k v src old st :
+    eval_a (S f) cx (AMap k v) src old st =
     match src with
     | VNil => Done (old, st)
-    | VMap _ kvs => let* (rs, st1) := each_entry (eval_v f) k v kvs (st + 1) in Done (VMap st rs, st1)
+    | VMap _ kvs => let* (rs, st1) := each_entry (eval_v f cx) k v kvs (st + 1) in Done (VMap st rs, st1)
     | _ => Stuck
     end.
   Proof. reflexivity. Qed.
-  Lemma eval_v_ref f al q src st :
-    eval_v (S f) (PRef al q) src st =
-    let* (r, st1) := eval_v f q src st in if al then Done (VPtr ALIAS r, st1) else Done (VPtr st1 r, st1 + 1).
+  Lemma eval_v_ref f cx al q src st :
+    eval_v (S f) cx (PRef al q) src st =
+    let* (r, st1) := eval_v f cx q src st in if al then Done (VPtr ALIAS r, st1) else Done (VPtr st1 r, st1 + 1).
   Proof. reflexivity. Qed.
 
   (* T -> *U : non-nil, freshly addressed pointer to the conversion of the value *)
-  Lemma eval_ref f q src st :
-    eval_v (S f) (PRef false q) src st =
-    match eval_v f q src st with
+  Lemma eval_ref f cx q src st :
+    eval_v (S f) cx (PRef false q) src st =
+    match eval_v f cx q src st with
     | Done (r, st1) => Done (VPtr st1 r, st1 + 1)
-    | Panicked => Panicked | OutOfFuel => OutOfFuel | Stuck => Stuck
+    | Panicked => Panicked | OutOfFuel => OutOfFuel | Stuck => Stuck | Errored er => Errored er
     end.
-  Proof. rewrite eval_v_ref. destruct (eval_v f q src st) as [[r st1]| | |]; reflexivity. Qed.
+  Proof. rewrite eval_v_ref. destruct (eval_v f cx q src st) as [[r st1]| | | |]; reflexivity. Qed.
 
-  Lemma eval_ref_nonnil f q src st v st' :
-    eval_v (S f) (PRef false q) src st = Done (v, st') ->
-    exists a r, v = VPtr a r /\ eval_v f q src st = Done (r, a) /\ st' = a + 1.
-  Proof. rewrite eval_ref. destruct (eval_v f q src st) as [[r st1]| | |]; try discriminate. intros [= <- <-]. eauto. Qed.
+  Lemma eval_ref_nonnil f cx q src st v st' :
+    eval_v (S f) cx (PRef false q) src st = Done (v, st') ->
+    exists a r, v = VPtr a r /\ eval_v f cx q src st = Done (r, a) /\ st' = a + 1.
+  Proof. rewrite eval_ref. destruct (eval_v f cx q src st) as [[r st1]| | | |]; try discriminate. intros [= <- <-]. eauto. Qed.
 
   (* *T -> U with useZeroValueOnPointerInconsistency *)
-  Lemma eval_ptr_to_value_nil f t q st :
-    eval_v (S (S f)) (POfAssign t (ASrcPtr q)) VNil st = Done (zero e ZFUEL t, st).
+  Lemma eval_ptr_to_value_nil f cx t q st :
+    eval_v (S (S f)) cx (POfAssign t (ASrcPtr q)) VNil st = Done (zero e ZFUEL t, st).
   Proof. reflexivity. Qed.
-  Lemma eval_ptr_to_value_some f t q a v st :
-    eval_v (S (S f)) (POfAssign t (ASrcPtr q)) (VPtr a v) st = eval_v f q v st.
+  Lemma eval_ptr_to_value_some f cx t q a v st :
+    eval_v (S (S f)) cx (POfAssign t (ASrcPtr q)) (VPtr a v) st = eval_v f cx q v st.
   Proof. reflexivity. Qed.
 
   (* *T -> *U : nil stays nil, non-nil becomes a fresh non-nil pointer to the conversion of the pointee *)
-  Lemma eval_ptr_nil f t q st :
-    eval_v (S (S f)) (POfAssign t (APtr q)) VNil st = Done (zero e ZFUEL t, st).
+  Lemma eval_ptr_nil f cx t q st :
+    eval_v (S (S f)) cx (POfAssign t (APtr q)) VNil st = Done (zero e ZFUEL t, st).
   Proof. reflexivity. Qed.
-  Lemma eval_ptr_some f t q a v st :
-    eval_v (S (S f)) (POfAssign t (APtr q)) (VPtr a v) st =
-    match eval_v f q v st with
+  Lemma eval_ptr_some f cx t q a v st :
+    eval_v (S (S f)) cx (POfAssign t (APtr q)) (VPtr a v) st =
+    match eval_v f cx q v st with
     | Done (r, st1) => Done (VPtr st1 r, st1 + 1)
-    | Panicked => Panicked | OutOfFuel => OutOfFuel | Stuck => Stuck
+    | Panicked => Panicked | OutOfFuel => OutOfFuel | Stuck => Stuck | Errored er => Errored er
     end.
-  Proof. rewrite eval_v_ofassign, eval_a_ptr. destruct (eval_v f q v st) as [[r st1]| | |]; reflexivity. Qed.
+  Proof. rewrite eval_v_ofassign, eval_a_ptr. destruct (eval_v f cx q v st) as [[r st1]| | | |]; reflexivity. Qed.
 
   (* slices: nil stays nil (the zero value of a slice type is nil); a non-nil slice (also an empty one)
      becomes a non-nil slice with a fresh backing array, same length, elements converted in order *)
-  Lemma each_assign_length ea a srcs olds st rs st' :
+  Lemma each_assign_length ea i a srcs olds st rs st' :
     length olds = length srcs ->
-    each_assign ea a srcs olds st = Done (rs, st') -> length rs = length srcs.
+    each_assign ea i a srcs olds st = Done (rs, st') -> length rs = length srcs.
   Proof.
-    revert olds st rs st'. induction srcs as [|s sr IH]; intros olds st rs st' L H; cbn in H.
+    revert i olds st rs st'. induction srcs as [|s sr IH]; intros i olds st rs st' L H; cbn in H.
     - destruct olds; [|discriminate L]. inversion H; reflexivity.
     - destruct olds as [|o orr]; [discriminate|]. cbn in L.
-      destruct (ea a s o st) as [[v st1]| | |]; cbn in H; try discriminate.
-      destruct (each_assign ea a sr orr st1) as [[vs st2]| | |] eqn:E; cbn in H; try discriminate.
+      destruct (ea a s o st) as [[v st1]| | | |]; cbn in H; try discriminate.
+      destruct (each_assign ea (i + 1) a sr orr st1) as [[vs st2]| | | |] eqn:E; cbn in H; try discriminate.
       inversion H; subst. cbn. f_equal. eapply IH; [|exact E]. lia.
   Qed.
 
-  Lemma eval_slice_nil f el a old st : eval_a (S f) (AList false el a) VNil old st = Done (old, st).
+  Lemma eval_slice_nil f cx el a old st : eval_a (S f) cx (AList false el a) VNil old st = Done (old, st).
   Proof. reflexivity. Qed.
 
-  Lemma eval_slice_nonnil f el a i vs old st v st' :
-    eval_a (S f) (AList false el a) (VSlice i vs) old st = Done (v, st') ->
+  Lemma eval_slice_nonnil f cx el a i vs old st v st' :
+    eval_a (S f) cx (AList false el a) (VSlice i vs) old st = Done (v, st') ->
     exists rs, v = VSlice st rs /\ length rs = length vs.
   Proof.
-    rewrite eval_a_list. destruct (each_assign _ _ _ _ _) as [[rs st1]| | |] eqn:E; cbn; try discriminate.
+    rewrite eval_a_list. destruct (each_assign _ _ _ _ _ _) as [[rs st1]| | | |] eqn:E; cbn; try discriminate.
     intros [= <- <-]. exists rs. split; [reflexivity|].
     eapply each_assign_length; [|exact E]. apply repeat_length.
   Qed.
@@ -171,33 +211,33 @@ Section facts.
   Proof.
     revert st rs st'. induction kvs as [|[k0 v0] r IH]; intros st rs st' H; cbn in H.
     - inversion H; reflexivity.
-    - destruct (ev k k0 st) as [[k1 st1]| | |]; cbn in H; try discriminate.
-      destruct (ev v v0 st1) as [[v1 st2]| | |]; cbn in H; try discriminate.
-      destruct (each_entry ev k v r st2) as [[rs' st3]| | |] eqn:E; cbn in H; try discriminate.
+    - destruct (ev k k0 st) as [[k1 st1]| | | |]; cbn in H; try discriminate.
+      destruct (ev v v0 st1) as [[v1 st2]| | | |]; cbn in H; try discriminate.
+      destruct (each_entry ev k v r st2) as [[rs' st3]| | | |] eqn:E; cbn in H; try discriminate.
       inversion H; subst. cbn. f_equal. eapply IH. exact E.
   Qed.
-  Lemma eval_map_nil f k v old st : eval_a (S f) (AMap k v) VNil old st = Done (old, st).
+  Lemma eval_map_nil f cx k v old st : eval_a (S f) cx (AMap k v) VNil old st = Done (old, st).
   Proof. reflexivity. Qed.
-  Lemma eval_map_nonnil f k v i kvs old st r st' :
-    eval_a (S f) (AMap k v) (VMap i kvs) old st = Done (r, st') ->
+  Lemma eval_map_nonnil f cx k v i kvs old st r st' :
+    eval_a (S f) cx (AMap k v) (VMap i kvs) old st = Done (r, st') ->
     exists rs, r = VMap st rs /\ length rs = length kvs.
   Proof.
-    rewrite eval_a_map. destruct (each_entry _ _ _ _ _) as [[rs st1]| | |] eqn:E; cbn; try discriminate.
+    rewrite eval_a_map. destruct (each_entry _ _ _ _ _) as [[rs st1]| | | |] eqn:E; cbn; try discriminate.
     intros [= <- <-]. exists rs. split; [reflexivity|]. eapply each_entry_length. exact E.
   Qed.
 
   (* basic values are unchanged; sharing plans return the source itself *)
-  Lemma eval_id f src st : eval_v (S f) PId src st = Done (src, st).
+  Lemma eval_id f cx src st : eval_v (S f) cx PId src st = Done (src, st).
   Proof. reflexivity. Qed.
-  Lemma eval_share f src st : eval_v (S f) PShare src st = Done (src, st).
+  Lemma eval_share f cx src st : eval_v (S f) cx PShare src st = Done (src, st).
   Proof. reflexivity. Qed.
 
   (* struct fields: a skipped field keeps what the target variable held (zero value, constructor result, or
      the previous content for update methods) *)
-  Lemma each_field_skip ea fr src o orr st rs st' :
-    each_field ea (FSkip :: fr) src (o :: orr) st = Done (rs, st') -> exists rs', rs = o :: rs'.
+  Lemma each_field_skip ev ea fr src o orr st rs st' :
+    each_field ev ea (FSkip :: fr) src (o :: orr) st = Done (rs, st') -> exists rs', rs = o :: rs'.
   Proof.
-    cbn. destruct (each_field ea fr src orr st) as [[vs st2]| | |]; cbn; try discriminate.
+    cbn. destruct (each_field ev ea fr src orr st) as [[vs st2]| | | |]; cbn; try discriminate.
     intros [= <- <-]. eauto.
   Qed.
 
@@ -215,33 +255,39 @@ End facts.
 Section update_facts.
   Variable e : env.
   Variable M : table.
-  Notation eval_a := (eval_a e M).
+  Variable F : ftable.
+  Notation eval_a := (eval_a e M F).
 
   (* a nil source pointer leaves the target untouched *)
-  Lemma eval_update_nil_source f a old st : eval_a (S f) (AIfNotNil a) VNil old st = Done (old, st).
+  Lemma eval_update_nil_source f cx a old st : eval_a (S f) cx (AIfNotNil a) VNil old st = Done (old, st).
   Proof. reflexivity. Qed.
 
   (* a zero-valued source under a zero guard leaves the field unchanged *)
-  Lemma each_field_zero_guard ea sel a fr src o orr st rs st' s :
-    eval_sel sel src = Some s -> is_zero s = true ->
-    each_field ea (FAssign sel true a :: fr) src (o :: orr) st = Done (rs, st') -> exists rs', rs = o :: rs'.
+  Lemma each_field_zero_guard ev ea name sel a fr src o orr st rs st' s st0 :
+    sel_eval ev sel src st = Done (s, st0) -> is_zero s = true ->
+    each_field ev ea (FAssign name sel true a :: fr) src (o :: orr) st = Done (rs, st') -> exists rs', rs = o :: rs'.
   Proof.
-    intros Hs Hz. cbn. rewrite Hs, Hz. cbn.
-    destruct (each_field ea fr src orr st) as [[vs st2]| | |]; cbn; try discriminate.
+    intros Hs Hz. cbn [each_field]. rewrite Hs. cbn [obind andb]. rewrite Hz. cbn [obind tag].
+    destruct (each_field ev ea fr src orr st0) as [[vs st2]| | | |]; cbn; try discriminate.
     intros [= <- <-]. eauto.
   Qed.
 
   (* without a guard the field is whatever the conversion yields *)
-  Lemma each_field_unguarded ea sel a fr src o orr st rs st' s :
-    eval_sel sel src = Some s ->
-    each_field ea (FAssign sel false a :: fr) src (o :: orr) st = Done (rs, st') ->
-    exists v st1 rs', ea a s o st = Done (v, st1) /\ rs = v :: rs'.
+  Lemma each_field_unguarded ev ea name sel a fr src o orr st rs st' s st0 :
+    sel_eval ev sel src st = Done (s, st0) ->
+    each_field ev ea (FAssign name sel false a :: fr) src (o :: orr) st = Done (rs, st') ->
+    exists v st1 rs', ea a s o st0 = Done (v, st1) /\ rs = v :: rs'.
   Proof.
-    intros Hs. cbn. rewrite Hs. cbn.
-    destruct (ea a s o st) as [[v st1]| | |]; cbn; try discriminate.
-    destruct (each_field ea fr src orr st1) as [[vs st2]| | |]; cbn; try discriminate.
+    intros Hs. cbn [each_field]. rewrite Hs. cbn [obind andb].
+    destruct (ea a s o st0) as [[v st1]| | | |]; cbn [obind tag]; try discriminate.
+    destruct (each_field ev ea fr src orr st1) as [[vs st2]| | | |]; cbn; try discriminate.
     intros [= <- <-]. eauto.
   Qed.
+
+  (* plain selectors (no method call) do not depend on the evaluator or the counter *)
+  Lemma sel_eval_plain ev sel src st s :
+    eval_sel sel src = Some s -> sel_eval ev sel src st = Done (s, st).
+  Proof. destruct sel; cbn; intros H; [injection H as ->; reflexivity|rewrite H; reflexivity|discriminate]. Qed.
 End update_facts.
 
 (* F-C10-1 on the model: a nillable field converted through a (sub-)method call is assigned unconditionally,
@@ -254,9 +300,9 @@ Definition f_c10_1_table : table :=
                                     c_UseUnderlyingTypeMethods := false; c_DefaultUpdate := false; c_Enum_Enabled := true; c_Enum_Unknown := [];
                                     c_ArgContextRegex := [] |};
                     m_fields := []; m_automap := []; m_raw_field_settings := false; m_UpdateTarget := false; m_constructor := None |};
-       g_origin := []; g_body := Some (BVal (POfAssign (TPtr (TBasic 2)) (APtr PId))); g_types := [] |} ].
+       g_origin := []; g_ctx := []; g_ret_err := false; g_body := Some (BVal (POfAssign (TPtr (TBasic 2)) (APtr PId))); g_types := [] |} ].
 Lemma zero_skip_through_call_refuted :
-  eval_a [] f_c10_1_table 5 (AStruct [FAssign (SelPath [(false, 0)] WNone) false (ASet (PCall 0))])
+  eval_a [] f_c10_1_table [] 5 [] (AStruct [FAssign [70] (SelPath [(false, 0)] WNone) false (ASet (PCall 0))])
          (VStruct [VNil]) (VStruct [VPtr 7 (VBasic 1)]) 10
   = Done (VStruct [VNil], 10).
 Proof. vm_compute. reflexivity. Qed.
